@@ -59,6 +59,36 @@ Theorem C14_reset : forall NH : bytes -> list entry -> bytes,
 Proof. exact reset_then_collect. Qed.
 Print Assumptions C14_reset.
 
+(* A node flagged collected has a cached hash, and that hash is the from-scratch
+   one: collect() computes the hash of every node it reports (putting a node in
+   the returned set hashes it through .hash).  invalidate_hash's early exit at
+   a node without a cached hash relies on it. *)
+Theorem C14_collected_has_hash : forall (NH : bytes -> list entry -> bytes) (rp : set_oracle)
+  (s : heap) (rep : list report), greach NH rp s rep ->
+  forall n x, nth_error s n = Some x -> collected x = true ->
+  exists h, cached x = Some h /\ Fresh NH s n h.
+Proof. exact collected_has_hash. Qed.
+Print Assumptions C14_collected_has_hash.
+
+(* The mutant collect_nohash (flag the reported nodes without computing their
+   hashes) breaks it, and with it completeness: a -> b, collect a as the very
+   first operation, attach c under b, collect a again: the code reports a, b
+   and c; the mutant reports c only - the new hashes of b and a are never
+   reported. *)
+Theorem C14_collect_nohash_refuted :
+  exists NH h, guarded NH true false [] h /\
+    let s := final NH true false [] h in
+    (let s1 := fst (step NH true false s (OCollect 0)) in
+     let s2 := fst (step NH true false s1 (OSet 1 nc 2)) in
+     (forall x, nth_error s1 0 = Some x -> collected x = true -> hashed x = true) /\
+     exists L, snd (step NH true false s2 (OCollect 0)) = OutNodes L /\ In 0 L /\ In 1 L /\ In 2 L) /\
+    exists s1 L1 s3 L, collect_nohash (S (length s)) 0 s = Ok (s1, L1) /\
+      (exists x, nth_error s1 0 = Some x /\ collected x = true /\ hashed x = false) /\
+      collect_nohash (S (length s1)) 0 (fst (step NH true false s1 (OSet 1 nc 2))) = Ok (s3, L) /\
+      ~ In 0 L /\ ~ In 1 L.
+Proof. exact collect_nohash_refuted. Qed.
+Print Assumptions C14_collect_nohash_refuted.
+
 (* A failed operation is not a change: whenever a guarded operation answers an
    error (KeyError for a missing name, ValueError for a path through a leaf or
    an assignment under a Content, AttributeError ...), the heap is exactly what
